@@ -79,8 +79,12 @@ func mod(i, n int) int {
 
 func genC10(t *rapid.T) C10Case {
 	c := C10Case{RPC: rapid.SampledFrom(rhpc.RPCs).Draw(t, "rpc"), N: rapid.IntRange(0, 9).Draw(t, "n")}
-	if rapid.IntRange(0, 3).Draw(t, "big") == 0 {
+	switch rapid.IntRange(0, 7).Draw(t, "big") {
+	case 0, 1:
 		c.N = rapid.IntRange(10, 40).Draw(t, "nbig") // deeper Merkle trees over the sector roots
+	case 2:
+		// several 4 KiB price buckets of sector roots (128 roots each)
+		c.N = rapid.IntRange(129, 400).Draw(t, "nhuge")
 	}
 	np := 6
 	for i := 0; i < np; i++ {
@@ -174,7 +178,7 @@ func newC10Env(c C10Case, cs consensus.State) *c10Env {
 	e := &c10Env{cs: cs, signer: rhpc.KeySigner{K: c10RenterKey}}
 	e.prices = rhpc.SignPrices(c10HostKey, basePrices, cs.Index.Height)
 	e.host = rhpc.NewByzHost(c10HostKey, cs, e.prices, c.Mut)
-	n := mod(c.N, 41)
+	n := mod(c.N, 401)
 	for i := 0; i < min(max(n, 3), rhpc.PoolSize); i++ {
 		s := rhpc.PoolSector(i)
 		e.host.Sectors[s.Root] = s
@@ -300,10 +304,10 @@ func runC10With(c C10Case, cs *kit.CaseStats, raw func(idx int, wire []byte) []b
 			return runC10Args(ctx, c, cs)
 		}
 		// domain: sector-root and free ranges lie inside the contract
-		if c.RPC == "roots" && mod(c.N, 41) == 0 {
+		if c.RPC == "roots" && mod(c.N, 401) == 0 {
 			c.N = 1
 		}
-		if c.RPC == "free" && mod(c.N, 41) == 0 {
+		if c.RPC == "free" && mod(c.N, 401) == 0 {
 			c.N = 2
 		}
 		env = newC10Env(c, baseState())
@@ -313,6 +317,9 @@ func runC10With(c C10Case, cs *kit.CaseStats, raw func(idx int, wire []byte) []b
 	}
 	applied, differs, harness := env.host.Status()
 	lastGenericN = env.host.GenericN
+	if env.host.Greedy {
+		cs.Class("greedy-host-countersigned-another-revision")
+	}
 	if harness != "" {
 		return fmt.Errorf("HARNESS: %s", harness)
 	}
@@ -395,7 +402,7 @@ func runC10Args(ctx context.Context, c C10Case, cs *kit.CaseStats) error {
 	case "empty-contract", "zero-length-empty-contract":
 		c.N = 0
 	default:
-		if mod(c.N, 41) == 0 {
+		if mod(c.N, 401) == 0 {
 			c.N = 3
 		}
 	}
@@ -938,6 +945,29 @@ func TestC10Enum(t *testing.T) {
 						cs := &kit.CaseStats{}
 						report(c, cs, c10Prop.SafeRun(c, cs))
 					}
+				}
+			}
+		}
+	}
+	// price buckets: sector roots are priced per 4 KiB (128 roots); offsets and
+	// lengths on both sides of the bucket boundaries of a 300-sector contract
+	if mine() {
+		for _, off := range []int{0, 1, 100, 127, 128, 129, 200, 255, 256, 290} {
+			for _, ln := range []int{1, 10, 27, 28, 100, 127, 128, 129, 172} {
+				if off+ln > 300 {
+					continue
+				}
+				c := C10Case{RPC: "roots", N: 300, P: []int{off, ln - 1, 0, 0, 0, 0}}
+				cs := &kit.CaseStats{}
+				report(c, cs, c10Prop.SafeRun(c, cs))
+			}
+		}
+		for _, n := range []int{127, 128, 129, 300} {
+			for _, rpc := range []string{"append", "free", "fund", "replenish", "replpools"} {
+				for v := 0; v < 3; v++ {
+					c := C10Case{RPC: rpc, N: n, P: []int{v, 2 * v, 300 - v, 129, 7, v}}
+					cs := &kit.CaseStats{}
+					report(c, cs, c10Prop.SafeRun(c, cs))
 				}
 			}
 		}
